@@ -639,8 +639,13 @@ class Extractor {
         const Expr *IE = F->getInClassInitializer();
         if (IE && !IE->isValueDependent()) {
           Expr::EvalResult R;
-          if (IE->getType()->isIntegralOrEnumerationType() && IE->EvaluateAsInt(R, Ctx, Expr::SE_NoSideEffects))
-            fo["initv"] = (int64_t)R.Val.getInt().getExtValue();
+          if (IE->getType()->isIntegralOrEnumerationType() && IE->EvaluateAsInt(R, Ctx, Expr::SE_NoSideEffects)) {
+            const llvm::APSInt &V = R.Val.getInt();
+            if (V.isUnsigned() && V.ugt(llvm::APInt(V.getBitWidth(), (uint64_t)INT64_MAX)))
+              fo["initv_hex"] = llvm::toString(V, 16);      // does not fit a JSON integer
+            else
+              fo["initv"] = (int64_t)V.getExtValue();
+          }
           else if (isa<CXXNullPtrLiteralExpr>(IE->IgnoreParenImpCasts()))
             fo["initv"] = nullptr;
         }
